@@ -36,11 +36,23 @@ SEGS = ['in.txt', 'sub', 's.txt', '.', '..', '', 'rootx', 'd.txt', 'root', 'root
         '..\\above.txt']
 SEPS = ['/', '\\', '//']
 LEADS = ['', '/', '\\']
-ROOTS = ['@T/root', '@T/root/', 'root', './root/', 'rootx/../root']
+ROOTS = ['@T/root', '@T/root/', 'root', './root/', 'rootx/../root',
+         # the process works in a directory BELOW the served one: the root is spelled with parent references only
+         'cd=root/sub;..', 'cd=root/sub;../', 'cd=root;.', 'cd=root/sub;./..']
+
+
+def root_and_cwd(spec, T):
+    """-> (root argument, working directory) of a root spelling ('cd=<dir below T>;<root>' changes the directory first)"""
+    if spec.startswith('cd='):
+        d, _, r = spec[3:].partition(';')
+        return r, os.path.join(T, d)
+    return spec.replace('@T', T), T
 FILES = {'root/in.txt': b'inside', 'root/sub/s.txt': b'sub-inside', 'rootx/d.txt': b'DECOY-x', 'root2/in.txt': b'DECOY-2',
          'above.txt': b'DECOY-above', 'root/root/in.txt': b'nested', 'root/..\\above.txt': b'backslash-name',
          # siblings of the root whose names differ from it only in letter case (the file system is case-sensitive)
-         'ROOT/in.txt': b'DECOY-upper', 'Root/sub/s.txt': b'DECOY-capital'}
+         'ROOT/in.txt': b'DECOY-upper', 'Root/sub/s.txt': b'DECOY-capital',
+         # files beside the root whose names are a beginning of the root's name
+         'roo': b'DECOY-prefix', 'r': b'DECOY-r'}
 
 
 def make_tree():
@@ -67,6 +79,10 @@ def shards(tier, seed):
     for ri in (0, 2, 4):
         out.append((ri, None, 3, 'ROOT'))
         out.append((ri, None, 3 if tier == 'quick' else 4, 'Root'))
+    # files beside the root whose names are a beginning of the root's name
+    for ri in (0, 2, 5):
+        out.append((ri, None, 3, 'roo'))
+        out.append((ri, None, 3, 'r'))
     # conditional requests (If-Modified-Since in the future): outside names stay 403 / 404, inside files answer 304
     for ri in (0, 2):
         for si in range(len(SEGS)):
@@ -221,7 +237,8 @@ def work(spec):
         if ims:
             env0['HTTP_IF_MODIFIED_SINCE'] = 'Fri, 01 Jan 2100 00:00:00 GMT'
         om.request.__init__(env0)
-        root = ROOTS[ri].replace('@T', T)
+        root, cwd = root_and_cwd(ROOTS[ri], T)
+        os.chdir(cwd)
         segs = [s.replace('@TROOT', T + '/root').replace('@T', T) for s in SEGS]
         if extra is not None:
             segs = segs + [extra]
@@ -258,11 +275,11 @@ def work(spec):
             if hasattr(body, 'read'):
                 data = body.read()
                 body.close()
-            r, loc, inside = ref_location(root, name, T)
+            r, loc, inside = ref_location(root, name, cwd)
             exp_file = filemap.get(tuple(loc)) if inside else None
             bad = None
             for p in opened:
-                pl = norm_abs(p, T)
+                pl = norm_abs(p, cwd)
                 if not (len(pl) > len(r) and pl[:len(r)] == r):
                     bad = f'opened {p!r}, which is outside the root {"/" + "/".join(r)}'
             if bad is None:
@@ -347,7 +364,8 @@ def replay(case):
         if case.get('ims'):
             env0['HTTP_IF_MODIFIED_SINCE'] = 'Fri, 01 Jan 2100 00:00:00 GMT'
         om.request.__init__(env0)
-        root = case['root'].replace('@T', T)
+        root, cwd = root_and_cwd(case['root'], T)
+        os.chdir(cwd)
         name = case['name'].replace('@T', T)
         filemap = {tuple(norm_abs(os.path.join(T, rel), T)): data for rel, data in FILES.items()}
         try:
@@ -359,10 +377,10 @@ def replay(case):
         if hasattr(resp.body, 'read'):
             data = resp.body.read()
             resp.body.close()
-        r, loc, inside = ref_location(root, name, T)
+        r, loc, inside = ref_location(root, name, cwd)
         exp_file = filemap.get(tuple(loc)) if inside else None
         for p in opened:
-            pl = norm_abs(p, T)
+            pl = norm_abs(p, cwd)
             if not (len(pl) > len(r) and pl[:len(r)] == r):
                 return f'static_file({case["name"]!r}, {case["root"]!r}) opened {p.replace(T, "@T")!r} outside the root'
         where = ('/' + '/'.join(loc)).replace(T, '@T')
